@@ -311,8 +311,10 @@ def check_property(prop, tier, seed):
     if state["infra"]:
         for m in state["infra"]:
             sys.stderr.write("INFRA: %s\n" % m)
-        log("check %s: infrastructure error (no verdict)" % prop)
-        return 2
+        if not state["violations"]:
+            log("check %s: infrastructure error (no verdict)" % prop)
+            return 2
+        log("check %s: infrastructure trouble in part of the run; the violations below passed the replay gate on their own" % prop)
     log("check %s tier=%s seed=%d: %d runs, %d distinct non-trivial orders, %d violations, %d known-finding runs, %.1fs" %
         (prop, tier, seed, runs, len(state["hashes"]), len(state["violations"]), state["known_runs"], wall))
     if runs == 0:
